@@ -89,16 +89,30 @@ def calls_any(node, names):
     return False
 
 
-def tr_threadprog():
-    tree = module_ast(os.path.join(REPO_SRC, '__init__.py'))
+def thread_items(path):
+    """The statements of Licensing.get_advanced_tokenizer with the instructions each stands for, in order. The body of a
+    "with self.<attribute>:" block (a lock held around the construction) is read as if it stood there alone: a lock does not
+    change what a thread does to its tokenizer, and the safety criterion does not rely on it. Fail-closed on anything else."""
+    tree = module_ast(path)
     fn = find_func(find_class(tree, 'Licensing'), 'get_advanced_tokenizer')
     body = list(fn.body)
     if body and isinstance(body[0], ast.Expr) and isinstance(body[0].value, ast.Constant):
         body = body[1:]
-    prog = []
-    local = None          # name of the local tokenizer variable
-    adders = set()        # local aliases of tokenizer.add
-    for st in body:
+    items = []
+    state = {'local': None, 'adders': set()}
+
+    def one(st):
+        local, adders = state['local'], state['adders']
+        if isinstance(st, ast.With):
+            for it in st.items:
+                if not (isinstance(it.context_expr, ast.Attribute) and isinstance(it.context_expr.value, ast.Name)
+                        and it.context_expr.value.id == 'self' and it.optional_vars is None):
+                    raise Unsupported('get_advanced_tokenizer: unsupported with statement at line %d' % st.lineno)
+            items.append((st.lineno, st.lineno, []))
+            for x in st.body:
+                one(x)
+            return
+        ins = []
         if isinstance(st, ast.If):
             t = st.test
             ok = (isinstance(t, ast.Compare) and is_self_attr(t.left, 'advanced_tokenizer') and len(t.ops) == 1
@@ -107,16 +121,16 @@ def tr_threadprog():
                   and isinstance(st.body[0], ast.Return) and is_self_attr(st.body[0].value, 'advanced_tokenizer'))
             if not ok:
                 raise Unsupported('get_advanced_tokenizer: unsupported if statement at line %d' % st.lineno)
-            prog.append('IRead')
+            ins.append('IRead')
         elif isinstance(st, ast.Assign):
             v = st.value
             if isinstance(v, ast.Call) and isinstance(v.func, ast.Name) and v.func.id == 'AdvancedTokenizer' and not v.args:
-                prog.append('IAlloc')
+                ins.append('IAlloc')
                 for tg in st.targets:      # Python assigns the targets from left to right
                     if isinstance(tg, ast.Name):
-                        local = tg.id
+                        state['local'] = tg.id
                     elif is_self_attr(tg, 'advanced_tokenizer'):
-                        prog.append('IPublish')
+                        ins.append('IPublish')
                     else:
                         raise Unsupported('get_advanced_tokenizer: unsupported assignment target at line %d' % st.lineno)
             elif (len(st.targets) == 1 and isinstance(st.targets[0], ast.Name) and isinstance(v, ast.Attribute)
@@ -124,7 +138,7 @@ def tr_threadprog():
                 adders.add(st.targets[0].id)
             elif (len(st.targets) == 1 and is_self_attr(st.targets[0], 'advanced_tokenizer')
                   and isinstance(v, ast.Name) and v.id == local):
-                prog.append('IPublish')
+                ins.append('IPublish')
             else:
                 raise Unsupported('get_advanced_tokenizer: unsupported assignment at line %d' % st.lineno)
         elif isinstance(st, ast.For):
@@ -133,22 +147,31 @@ def tr_threadprog():
             if any(isinstance(x, ast.Assign) and any(is_self_attr(t, 'advanced_tokenizer') for t in x.targets)
                    for x in ast.walk(st)):
                 raise Unsupported('get_advanced_tokenizer: loop at line %d writes the shared slot' % st.lineno)
-            prog.append('IAdd')
+            ins.append('IAdd')
         elif isinstance(st, ast.Expr) and isinstance(st.value, ast.Call):
             f = st.value.func
             if isinstance(f, ast.Attribute) and f.attr == 'make_automaton' and isinstance(f.value, ast.Name) and f.value.id == local:
-                prog.append('IFinalize')
+                ins.append('IFinalize')
             else:
                 raise Unsupported('get_advanced_tokenizer: unsupported call at line %d' % st.lineno)
         elif isinstance(st, ast.Return):
             if isinstance(st.value, ast.Name) and st.value.id == local:
-                prog.append('IReturn')
+                ins.append('IReturn')
             elif is_self_attr(st.value, 'advanced_tokenizer'):
-                prog.append('IReturn')
+                ins.append('IReturn')
             else:
                 raise Unsupported('get_advanced_tokenizer: unsupported return at line %d' % st.lineno)
         else:
             raise Unsupported('get_advanced_tokenizer: unsupported statement %s at line %d' % (type(st).__name__, st.lineno))
+        items.append((st.lineno, st.end_lineno, ins))
+    for st in body:
+        one(st)
+    return items
+
+
+def tr_threadprog():
+    items = thread_items(os.path.join(REPO_SRC, '__init__.py'))
+    prog = [i for _, _, ins in items for i in ins]
     return ('(* generated from Licensing.get_advanced_tokenizer in /repo/src/license_expression/__init__.py; do not edit *)\n'
             'Require Import Model.Base Model.Threads.\n'
             'Definition thread_prog : prog := [%s].\n' % '; '.join(prog))
